@@ -5,7 +5,7 @@ pvMoveBufferToHead / pvDeleteBuffer on fabricated lists and on every merge obser
 oracle: the property predicate evaluated inside harness.cpp on the real MemPool with a placement-policy manager."""
 import os, re
 
-GEN = ['gen_uintmath.json', 'gen_poolconst.json', 'gen_mempool.json']
+GEN = ['gen_uintmath.json', 'gen_poolconst.json', 'gen_mempool.json', 'gen_pool32.json']
 BASE = 0x200000000000
 BCS = [1, 2, 3, 31, 32, 127]
 CFS = [0, 1, 16]
@@ -58,11 +58,19 @@ def tv_cases(ctx, scale):
         cs.append('gi %d %d %d %d %d' % (bc, cf, B, A, (BASE + r.below(2 ** 30)) // A * A))
         cs.append('gb %d %d %d %d %d %d' % (bc, cf, B % 2 ** 30 + 1, A, BASE + r.below(2 ** 30), r.range(-128, 127)))
     cs.append('ar 127 0 145249953336295741 1')        # pvCheckParams accepts it, pvGetBufferSize wraps (see NOTES.md)
+    for bc in (1, 2, 16, 32):                          # MemPoolUInt32 index arithmetic (generated) vs the real functions
+        for bs in (1, 4, 5, 24):
+            for nbuf in (1, 2, 5):
+                for h in sorted(set([0, 1, bc - 1, bc, nbuf * bc - 1, r.below(nbuf * bc), r.below(nbuf * bc)])):
+                    if h < nbuf * bc: cs.append('u32gp %d %d %d %d' % (bc, bs, nbuf, h))
+            for (maxt, nbuf) in ((bc, 0), (bc, 1), (3 * bc, 2), (3 * bc, 3), (3 * bc + bc - 1, 3), (3 * bc + bc, 3), (1000, 1), (0, 0), (bc - 1, 0)):
+                cs.append('u32nb %d %d %d %d' % (bc, bs, maxt, nbuf))
     M = 2 ** 64 - 1
     for bc in (1, 2, 32, 127):                        # constructor boundary values of blockSize: 0, 1, limit-1, limit, limit+1, SIZE_MAX
-        lim = M // bc
-        for bs in (0, 1, lim - 1, lim, lim + 1, M - 1, M, 2 ** 63):
-            for al in (1, 2) if bc > 1 else (1, 16, 1024):
+        for al in (1, 2) if bc > 1 else (1, 16, 24, 1024):
+            ov = addend(al) + 3 * al + 20                 # maxOverhead of pvCheckParams (fix e4ec548)
+            lim = (M - ov) // bc; old = M // bc           # new limit, and the limit before the fix (sizes in between wrapped)
+            for bs in (0, 1, lim - 1, lim, lim + 1, old - 1, old, old + 1, M - 1, M, 2 ** 63):
                 if bs > M or (bc > 1 and bs > al and bs % al): continue     # a rounded-up size would wrap: outside CorrectBlockSize's domain
                 cs.append('ctor %d %d %d' % (bc, bs, al))
     return cs
@@ -241,6 +249,9 @@ def hist_cases(ctx, scale, n):
 MERGE_RE = re.compile(r'\| merge (.*?) / (.*?) -> (.*?) / ([^|]*)')
 
 
+def addend(al): return al - gran(al)
+
+
 def oracle_lines(ctx, cases, lines):
     """the property itself on the real code's outputs (the harness evaluates the predicate; layout lines are re-checked here).
     returns [(case, output, why)] or [(case, output, why, key)]"""
@@ -250,7 +261,10 @@ def oracle_lines(ctx, cases, lines):
             break              # not evaluated (harness stopped early: reported by the caller)
         out = lines[i]
         w = c.split()
-        if w[0] == 'u32':
+        if w[0] == 'ctor':
+            if out not in ('ok', 'length_error'):
+                bad.append((c, out, 'pool constructed with an accepted block size misbehaves on its first Allocate: ' + out[:200]))
+        elif w[0] == 'u32':
             if not out.startswith('ok '):
                 bad.append((c, out, 'MemPoolUInt32: ' + out[:300]))
             else:
@@ -443,7 +457,7 @@ def run(ctx):
         hist = hist + hist_cases(ctx, 6, 4000)
         tv = tv + layout_cases(ctx, 4)
     u32 = u32_cases(ctx, scale)
-    cases = [c for c in tv if c.startswith('nb') or c.startswith('al1')] + fab + hist + u32
+    cases = [c for c in tv if c.startswith('nb') or c.startswith('al1') or c.startswith('ctor')] + fab + hist + u32
     rc, lines, err = run_harness(ctx, harness, cases, 'oracle')
     ctx.evaluations += len(cases)
     bad = oracle_lines(ctx, cases, lines)
